@@ -90,6 +90,81 @@ theorem cs5_lt (m : Bits) : cs5 m < 31 := by
   unfold cs5 fiveBitChecksumRaw
   exact Nat.mod_lt _ (by decide)
 
+/-! ### from `Facts` of the encoder core to statements about `encode` -/
+
+namespace VCode
+variable (V : VCode)
+
+theorem F_msg (m cs : Bits) (o : Bool) (hm : m.length = V.k) (hcs : cs.length = V.c) :
+    V.F (m ++ cs ++ [o]) = V.encCore (m ++ cs) o := by
+  unfold F
+  have hl : (m ++ cs).length = V.k + V.c := by simp [hm, hcs]
+  have h1 : (m ++ cs ++ [o]).take (V.k + V.c) = m ++ cs := by
+    rw [← hl, List.take_left']; rfl
+  have h2 : getBit (m ++ cs ++ [o]) (V.k + V.c) = o := by
+    have := getBit_append_right (m ++ cs) [o] 0
+    rw [hl, Nat.add_zero] at this
+    rw [this]; rfl
+  rw [h1, h2]
+
+/-- the five statements for the on-air word of message `m`, checksum bits `cs` and parity flag `o` -/
+theorem facts_msg (hall : ∀ y : Bits, y.length = V.k + V.c + 1 → V.Facts y)
+    (m cs : Bits) (o : Bool) (hm : m.length = V.k) (hcs : cs.length = V.c) :
+    V.dataRaw (V.encCore (m ++ cs) o) = m
+    ∧ V.csRaw (V.encCore (m ++ cs) o) = cs
+    ∧ (∀ r, r < V.hrows → V.txRow r (V.encCore (m ++ cs) o)
+        = V.H.gen ((V.txRow r (V.encCore (m ++ cs) o)).take V.H.k))
+    ∧ (∀ c, c < V.W → xorAll (V.txCol c (V.encCore (m ++ cs) o)) = o)
+    ∧ V.fromAll (V.allRaw (V.encCore (m ++ cs) o)) = m := by
+  have hy : (m ++ cs ++ [o]).length = V.k + V.c + 1 := by simp [hm, hcs, Nat.add_assoc]
+  have f := hall _ hy
+  have hF := V.F_msg m cs o hm hcs
+  have hl : (m ++ cs).length = V.k + V.c := by simp [hm, hcs]
+  have t1 : (m ++ cs ++ [o]).take V.k = m := by
+    rw [List.append_assoc, ← hm, List.take_left']; rfl
+  have t2 : ((m ++ cs ++ [o]).drop V.k).take V.c = cs := by
+    rw [List.append_assoc, ← hm, List.drop_left', ← hcs, List.take_left'] <;> rfl
+  have t3 : getBit (m ++ cs ++ [o]) (V.k + V.c) = o := by
+    have := getBit_append_right (m ++ cs) [o] 0
+    rw [hl, Nat.add_zero] at this
+    rw [this]; rfl
+  refine ⟨?_, ?_, ?_, ?_, ?_⟩
+  · rw [← hF, f.data, t1]
+  · rw [← hF, f.cs, t2]
+  · intro r hr; rw [← hF]; exact f.rows r hr
+  · intro c hc; rw [← hF, f.cols c hc, t3]
+  · rw [← hF, f.all, t1]
+
+/-- a message of `k` bits is encoded directly -/
+theorem encode_msg (cs : Bits → Bits) (m : Bits) (even : Bool) (hm : m.length = V.k)
+    (hkn : V.k ≠ V.n) :
+    V.encode cs m even = .ok (V.encCore (m ++ cs m) (!even)) := by
+  unfold encode
+  have h1 : ¬ (V.c ≠ 0 ∧ m.length = V.k + V.c) := by rw [hm]; omega
+  have h2 : ¬ m.length = V.n := by rw [hm]; exact hkn
+  simp only [h1, h2, if_false]
+  simp [hm]
+
+/-- message-with-checksum: the trailing checksum bits are dropped and recomputed -/
+theorem encode_withCs (cs : Bits → Bits) (y : Bits) (even : Bool) (hc : V.c ≠ 0)
+    (hy : y.length = V.k + V.c) (hkn : V.k ≠ V.n) :
+    V.encode cs y even = V.encode cs (y.take V.k) even := by
+  have hl : (y.take V.k).length = V.k := by simp [hy]
+  rw [V.encode_msg cs _ even hl hkn]
+  unfold encode
+  simp [hc, hy, hl]
+
+/-- the fully de-interleaved word: the message is recovered from it first -/
+theorem encode_all (cs : Bits → Bits) (w : Bits) (even : Bool) (hw : w.length = V.n)
+    (hn : V.n ≠ V.k + V.c) (hf : (V.fromAll w).length = V.k) :
+    V.encode cs w even = .ok (V.encCore (V.fromAll w ++ cs (V.fromAll w)) (!even)) := by
+  unfold encode
+  have h1 : ¬ (V.c ≠ 0 ∧ w.length = V.k + V.c) := by rw [hw]; intro h; exact hn h.2
+  rw [if_neg h1, if_pos hw]
+  simp [hf]
+
+end VCode
+
 /-! ### the CRC-8 register stays below 256, and `int2ba` / `ba2int` are inverse on it -/
 
 theorem crcMask_eq : crcMask = 255 := by decide
